@@ -89,11 +89,13 @@ def isVar : Key → Bool | '$' :: _ => true | _ => false
 
 /-! ### MarshalJSON -/
 
+def marshalMetaEntry (kv : Key × Option String) : Key × JTree :=
+  (kv.1, match kv.2 with
+    | none => JTree.obj []
+    | some v => JTree.obj [(keyDefault, .str v)])
+
 def marshalMeta (m : List (Key × Option String)) : JTree :=
-  .obj (m.map fun kv =>
-    (kv.1, match kv.2 with
-      | none => JTree.obj []
-      | some v => JTree.obj [(keyDefault, .str v)]))
+  .obj (m.map marshalMetaEntry)
 
 /-- the `.metadata` / `.self` members of `marshalJsonObject` -/
 def marshalAccount (hasChildren : Bool) : Option AccountSchema → List (Key × JTree)
@@ -198,16 +200,16 @@ structure Acc where
   var : Option VarSegment := none
   self : Bool := false
   /-- `some m`: a `.metadata` member was present and decoded to `m` -/
-  meta : Option (Option (List (Key × Option String))) := none
+  md : Option (Option (List (Key × Option String))) := none
   rules : Bool := false
 
 def Acc.finish (a : Acc) : Except Err Segment :=
   let isLeaf := a.fixed.isEmpty && a.var.isNone
   let isAccount := a.self || isLeaf
-  if a.meta.isSome && !isAccount then throw .metadataOnNonAccount
+  if a.md.isSome && !isAccount then throw .metadataOnNonAccount
   else if a.rules && !isAccount then throw .rulesOnNonAccount
   else pure (.mk a.fixed a.var
-    (if isAccount then some { metadata := a.meta.join } else none))
+    (if isAccount then some { metadata := a.md.join } else none))
 
 mutual
 /-- `ChartSegment.UnmarshalJSON` -/
@@ -227,11 +229,10 @@ def unmarshalMembers (ops : RegexOps) : List (Key × JTree) → Except Err Acc
         let pattern ← readPattern ops fields
         let seg ← unmarshalSeg ops v
         let acc ← unmarshalMembers ops rest
-        match k with
-        | '$' :: label =>
+        if isVar k then
           if acc.var.isSome then throw .twoVariable
-          else pure { acc with var := some (.mk label pattern seg) }
-        | _ =>
+          else pure { acc with var := some (.mk k.tail pattern seg) }
+        else
           if pattern.isSome then throw .patternOnFixed
           else pure { acc with fixed := (k, seg) :: acc.fixed }
     else if k = keySelf then
@@ -243,7 +244,7 @@ def unmarshalMembers (ops : RegexOps) : List (Key × JTree) → Except Err Acc
     else if k = keyMetadata then do
       let m ← unmarshalMeta v
       let acc ← unmarshalMembers ops rest
-      pure { acc with meta := some m }
+      pure { acc with md := some m }
     else if k = keyRules then
       match v.fields? with
       | some _ => do
